@@ -75,7 +75,12 @@ func c08Seeds() []redact.RedactableString {
 	b.Print(r7)
 	r9 := b.RedactableString()
 	r10 := redact.Sprint(redact.Safe("?"+mStart), "x\xe2")
-	c08SeedCache = []redact.RedactableString{"", "plain safe", r2, r3, r4, r5, r6, r7, r8, r9, r10, redact.RedactableString(mRed), redact.RedactableString(mStart + mEnd)}
+	// marker-free redactables that BEGIN with the continuation bytes of a marker (harmless alone; next to text that
+	// ends in the marker's first byte(s) the two must still not be read together)
+	r11 := redact.Sprint(redact.Safe("\x80\xb9tail"))
+	r12 := redact.Sprint(redact.Safe("\xb9t"), "\x80\xba")
+	r13 := redact.Sprintf("\x80\xba%d", 4)
+	c08SeedCache = []redact.RedactableString{"", "plain safe", r2, r3, r4, r5, r6, r7, r8, r9, r10, redact.RedactableString(mRed), redact.RedactableString(mStart + mEnd), r11, r12, r13}
 	return c08SeedCache
 }
 
@@ -298,6 +303,11 @@ var c08SinkPrefixes = []struct {
 	{func() *Op { o := mkOp(kUnsafeString, "u"); return &o }(), mStart + "u" + mEnd},
 	{func() *Op { o := mkPrint(1); return &o }(), mStart + "1" + mEnd},
 	{func() *Op { o := mkOp(kUnsafeString, ""); return &o }(), ""},
+	// the sink holds text that ends in the first byte(s) of a marker, not yet flushed
+	{func() *Op { o := mkOp(kSafeString, "h\xe2"); return &o }(), "h\xe2?"},
+	{func() *Op { o := mkOp(kSafeString, "h\xe2\x80"); return &o }(), "h\xe2\x80?"},
+	{func() *Op { o := mkOp(kUnsafeString, "u\xe2\x80"); return &o }(), mStart + "u\xe2\x80?" + mEnd},
+	{func() *Op { o := mkPrint(redact.Safe("p\xe2")); return &o }(), "p\xe2?"},
 }
 
 var c08SinkShapes = []string{"Print(r)", "Print(r, r)", "Printf(%v, r)", "Printf(%s|%s, r, r)", "Print(r) Print(r)", "Print(r, 1)", "Print(r, \"\")", "Printf(%s%s., r, \"\")", "Print(r) UnsafeString(\"\") SafeString(.)", "Print(\"\", r)"}
